@@ -29,7 +29,7 @@ def run(ctx):
         for g, kind, policy in cachecfg.quick_configs(seed):
             nwords = len(Cfg(*g, kind, policy).words)
             cachebfs.explore(ctx, Cfg(*g, kind, policy, 0, "full", k % 2 == 1, ("base", "neg", "top")[k % 3]), WANT, 3 if nwords <= 4 else 2)
-            cachebfs.explore(ctx, Cfg(*g, kind, policy, 0, "word", k % 2 == 0, "base"), WANT, 6 if nwords <= 4 else (5 if nwords <= 6 else 3))
+            cachebfs.explore(ctx, Cfg(*g, kind, policy, 0, "word", k % 2 == 0, "mixed" if k % 2 else "base"), WANT, 6 if nwords <= 4 else (5 if nwords <= 6 else 3))
             k += 1
         cachebfs.explore(ctx, Cfg(12, 1, 1, ("wb", "wt")[seed % 2], "lru", 0, "word", True, "base"), WANT, 1)
         closure = [((0, 0, 2), "lru"), ((0, 0, 3), "lru"), ((1, 0, 2), "lru"), ((0, 0, 4), "plru"), ((0, 1, 2), "plru")]
@@ -39,7 +39,7 @@ def run(ctx):
             for pre in (False, True):
                 cachebfs.explore(ctx, Cfg(*g, kind, policy, 0, "full", pre, ("base", "neg", "top", "big")[(k + int(pre)) % 4]), WANT,
                                  3 if nwords <= 6 else 2, state_cap=800000)
-            cachebfs.explore(ctx, Cfg(*g, kind, policy, 0, "word", k % 2 == 0, "base"), WANT, 7 if nwords <= 4 else (5 if nwords <= 6 else 4), state_cap=800000)
+            cachebfs.explore(ctx, Cfg(*g, kind, policy, 0, "word", k % 2 == 0, "mixed" if k % 2 else "base"), WANT, 7 if nwords <= 4 else (5 if nwords <= 6 else 4), state_cap=800000)
             k += 1
         cachebfs.explore(ctx, Cfg(12, 1, 1, "wb", "lru", 0, "word", False, "base"), WANT, 2)
         closure = [((0, 0, 1), "lru"), ((0, 0, 2), "lru"), ((0, 0, 2), "plru"), ((0, 0, 3), "lru"), ((1, 0, 2), "lru"), ((1, 0, 2), "plru"),
